@@ -388,6 +388,63 @@ def grad_histories(run, seed, tier):
                             break
 
 
+def retained_interior_part(run, specs, seed):
+    """".grad of EVERY tensor": also of interior results whose gradient is kept (retain_grad() on them, or the sweep run under retain_grads()). Every catalogue configuration is
+    run with each tracked operand replaced by an interior result h = t * 1 of the operand's dtype; after backward the kept gradient of h has h's shape and dtype, whatever
+    the dtype of the first contribution its consumer hands back"""
+    Tensor, F, nn, NF = synapgrad_modules()
+    tm = sys.modules["synapgrad.tensor"]
+    for si, spec in enumerate(specs):
+        if "empty" in spec["api"].split(".")[-1]:
+            continue
+        rng = np.random.default_rng([seed, si, 7])
+        data = [None if o[0] in "SI" else (rng.uniform(0.1, 0.9, o[1]) if o[0] in "PU" else rng.uniform(0.5, 2.0, o[1])) for o in spec["ops"]]
+        for dt in (np.float32, np.float64):
+            for how in ("retain_grad()", "retain_grads()"):
+                leaves, ops, hs = [], [], []
+                try:
+                    for o, d in zip(spec["ops"], data):
+                        if o[0] == "S":
+                            ops.append(o[1])
+                        elif o[0] == "I":
+                            ops.append(Tensor(np.array(o[1])))
+                        elif o[0] in "TP":
+                            t = Tensor(d.astype(dt), requires_grad=True)
+                            h = t * 1.0
+                            if how == "retain_grad()":
+                                h.retain_grad()
+                            leaves.append(t)
+                            hs.append(h)
+                            ops.append(h)
+                        else:
+                            ops.append(Tensor(d.astype(dt)))
+                    if not hs:
+                        continue
+                    with np.errstate(all="ignore"):
+                        out = spec["fn"](ops, dt)
+                        root = (list(out) if isinstance(out, (tuple, list)) else [out])[0]
+                        if not root.requires_grad:
+                            continue
+                        g = Tensor(np.ones(root.shape, dtype=root.data.dtype))
+                        if how == "retain_grads()":
+                            with tm.retain_grads():
+                                root.backward(g)
+                        else:
+                            root.backward(g)
+                except Exception:
+                    continue                # completion is C01/C02's business
+                run.rt(("retained-interior", spec["api"], spec["pattern"], np.dtype(dt).name, how))
+                for k, h in enumerate(hs):
+                    gk = h._grad
+                    if gk is None:
+                        continue            # an operand the result does not depend on
+                    if np.asarray(gk).dtype != h.data.dtype or np.asarray(gk).shape != h.data.shape:
+                        run.violation("Tensor.backward.kept_interior_grad_has_tensor_dtype_and_shape", "%s [%s], %s operands, gradient kept by %s: the interior operand %d of shape %s holds .grad %s%s" %
+                                      (spec["api"], spec["pattern"], np.dtype(dt).name, how, k, h.data.shape, np.asarray(gk).dtype, np.asarray(gk).shape),
+                                      key={"api": spec["api"], "dtype": np.dtype(dt).name, "kept_by": how}, replay={"api": spec["api"], "pattern": spec["pattern"], "dtype": np.dtype(dt).name, "kept_by": how})
+                        break
+
+
 def leaf_root_histories(run, seed, tier):
     """a LEAF that is also used as the root of backward (x.backward(), x.backward(g)) between ordinary sweeps: after any interleaving its .grad has exactly its shape and dtype
     (0-d leaves included: NumPy turns the sum of two 0-d arrays into a scalar, which later in-place additions rebind instead of updating) and the accumulated value"""
@@ -672,6 +729,7 @@ def main(tier="quick", seed=0, procs=None, only=None):
                       "result rank classes": ["0-d", ">=1-d"], "broadcasting patterns (binary forms)": [b[0] + ":%s,%s" % b[1:] for b in BIN],
                       "upstream gradient dtypes": ["float32", "float64"], "shapes": "extents <= 6, ranks 0-4", "reductions (losses)": ["mean", "sum", "none"]}
         guarded(run, "operands at mixed scales", scale_part, run, ck, specs)
+        guarded(run, "kept gradients of interior results", retained_interior_part, run, [s_ for _, s_ in specs], seed)
         run.extra["configurations_run"] = len(specs)
         run.extra["failure_classes"] = ck.C.flush()
         if only:
